@@ -122,6 +122,13 @@ def corr_dispatch(n_quick, n_thorough):
     return run
 
 
+def corr_dual_dispatch(n_quick, n_thorough):
+    def run(tier, seed):
+        import corr_dispatch as C
+        return C.run_dual(seed, n_quick if tier == 'quick' else n_thorough)
+    return run
+
+
 CONV_FUNCS = ['normalize_bbox', 'denormalize_bbox', 'convert_bbox_to_dicaugment', 'convert_bbox_from_dicaugment',
               'check_bbox', 'convert_keypoint_to_dicaugment', 'convert_keypoint_from_dicaugment', 'check_keypoint',
               'angle_to_2pi_range', 'convert_bboxes_to_dicaugment', 'convert_bboxes_from_dicaugment',
@@ -184,7 +191,7 @@ PROPS['C03'] = {
     'level_note': 'Trusted: as C02. Resampling transforms: search oracle only (partial).',
 }
 PROPS['C01'] = {
-    'requires': ARR_FUNCS, 'corr': corr_multi(corr_fn('C01', ARR_FUNCS, 40, 900), corr_methods(2, 20)), 'search': 'C01', 'trusted_base': GEOM_TRUSTED,
+    'requires': ARR_FUNCS, 'corr': corr_multi(corr_fn('C01', ARR_FUNCS, 40, 900), corr_methods(2, 20), corr_dual_dispatch(100, 1500)), 'search': 'C01', 'trusted_base': GEOM_TRUSTED,
     'assumptions': ['SciPy resampling (zoom / affine_transform) is not modelled: those transforms are covered by the '
                     'search oracle with nearest interpolation'],
     'level_text': 'For the lattice classes the mask path is proved identical to the image path (inherited path = image '
@@ -277,7 +284,7 @@ PROPS['C14'] = {
 }
 
 PROPS['C12'] = {
-    'requires': [], 'corr': corr_multi(corr_classtab(), corr_dispatch(200, 3000)), 'search': 'C12',
+    'requires': [], 'corr': corr_multi(corr_classtab(), corr_dispatch(200, 3000), corr_dual_dispatch(150, 2500)), 'search': 'C12',
     'trusted_base': CLASSTAB_TRUSTED + ['coq/model/Dispatch.v is a hand-written model of _get_target_function / '
                                         'apply_with_params, tied to the code by harness/corr_dispatch.py (random target tables, '
                                         'additional targets, unknown and None-valued keys); the search runs every image-only class '
@@ -292,7 +299,7 @@ PROPS['C12'] = {
 MASK_FUNCS = ['vflip', 'hflip', 'zflip', 'random_flip', 'transpose', 'rot90', '_pad', 'pad_with_params', 'cutout',
               'random_crop', 'center_crop', 'crop', 'clamping_crop', 'resize', 'scale']
 PROPS['C06'] = {
-    'requires': MASK_FUNCS, 'corr': corr_multi(corr_multi(corr_fn('C06', MASK_FUNCS, 25, 500), corr_classtab()), corr_methods(2, 20)), 'search': 'C06',
+    'requires': MASK_FUNCS, 'corr': corr_multi(corr_multi(corr_fn('C06', MASK_FUNCS, 25, 500), corr_classtab()), corr_methods(2, 20), corr_dual_dispatch(100, 1500)), 'search': 'C06',
     'trusted_base': GEOM_TRUSTED + CLASSTAB_TRUSTED + [
         'SciPy zoom / affine_transform with order=0 return input voxels or cval (not modelled; explored by the search '
         'with sparse label alphabets)', 'dtype preservation is a NumPy fact outside the model (explored)'],
